@@ -102,6 +102,76 @@ type evalCtx struct {
 	env      map[ssa.Value]constant.Value
 	steps    int
 	depth    int
+	// pkgFuncs: the source functions of the package under evaluation (when given, loads of constant indices of a
+	// package-level array that only its initialiser writes are read from the initialiser)
+	pkgFuncs []*ssa.Function
+}
+
+// globalElem: the value of g[k] for a package-level array g whose only writes are the constant element stores of
+// the package initialiser (var t = [...]bool{a: true, b: true}); ok is false when anything else writes g.
+func (e *evalCtx) globalElem(g *ssa.Global, k int64) (constant.Value, bool) {
+	arr, isArr := g.Type().(*types.Pointer).Elem().Underlying().(*types.Array)
+	if !isArr || g.Pkg == nil || e.pkgFuncs == nil || k < 0 || k >= arr.Len() {
+		return nil, false
+	}
+	eb, isBasic := arr.Elem().Underlying().(*types.Basic)
+	if !isBasic {
+		return nil, false
+	}
+	var val constant.Value
+	switch {
+	case eb.Info()&types.IsBoolean != 0:
+		val = constant.MakeBool(false)
+	case eb.Info()&types.IsInteger != 0:
+		val = constant.MakeInt64(0)
+	default:
+		return nil, false
+	}
+	clean := true
+	scan := func(fn *ssa.Function, isInit bool) {
+		allInstrs(fn, func(in ssa.Instruction) {
+			st, ok := in.(*ssa.Store)
+			if !ok {
+				// the array handed out by address or sliced: anything may write it
+				for _, op := range in.Operands(nil) {
+					if op != nil && *op == ssa.Value(g) {
+						if _, isIA := in.(*ssa.IndexAddr); !isIA {
+							if u, isLd := in.(*ssa.UnOp); !isLd || u.Op != token.MUL {
+								clean = false
+							}
+						}
+					}
+				}
+				return
+			}
+			if st.Addr == ssa.Value(g) {
+				clean = false
+				return
+			}
+			ia, ok := st.Addr.(*ssa.IndexAddr)
+			if !ok || ia.X != ssa.Value(g) {
+				return
+			}
+			ki, okK := constInt(ia.Index)
+			cv, okV := st.Val.(*ssa.Const)
+			if !isInit || !okK || !okV || cv.Value == nil {
+				clean = false
+				return
+			}
+			if ki == k {
+				val = cv.Value
+			}
+		})
+	}
+	if init := g.Pkg.Func("init"); init != nil {
+		scan(init, true)
+	}
+	for _, fn := range e.pkgFuncs {
+		for _, f := range withClosures(fn) {
+			scan(f, false)
+		}
+	}
+	return val, clean
 }
 
 func (e *evalCtx) val(v ssa.Value, pred *ssa.BasicBlock) (constant.Value, error) {
@@ -120,6 +190,17 @@ func (e *evalCtx) val(v ssa.Value, pred *ssa.BasicBlock) (constant.Value, error)
 				_, f := fieldVarOf(fa)
 				if c, ok := e.fieldVal(f); ok {
 					return c, nil
+				}
+			}
+			if ia, ok := x.X.(*ssa.IndexAddr); ok {
+				if g, ok := ia.X.(*ssa.Global); ok {
+					if kv, err := e.val(ia.Index, pred); err == nil {
+						if k, ok := constant.Int64Val(constant.ToInt(kv)); ok {
+							if c, ok := e.globalElem(g, k); ok {
+								return c, nil
+							}
+						}
+					}
 				}
 			}
 			return nil, fmt.Errorf("load of unknown location %s", sym(x))
@@ -157,7 +238,7 @@ func (e *evalCtx) val(v ssa.Value, pred *ssa.BasicBlock) (constant.Value, error)
 		if cal == nil || cal.Blocks == nil || e.depth > 3 || len(cal.Params) != len(x.Call.Args) {
 			return nil, fmt.Errorf("side effect in evaluated fragment at %v", x)
 		}
-		sub := &evalCtx{fieldVal: e.fieldVal, env: map[ssa.Value]constant.Value{}, depth: e.depth + 1}
+		sub := &evalCtx{fieldVal: e.fieldVal, env: map[ssa.Value]constant.Value{}, depth: e.depth + 1, pkgFuncs: e.pkgFuncs}
 		for i, a := range x.Call.Args {
 			c, err := e.val(a, pred)
 			if err != nil {
